@@ -74,9 +74,9 @@ def run() -> int:
     t = tier()
     rep = Report(PROP, "other")
     templates = list(range(20))
-    seeds = ["0"] if t == "quick" else ["0", "1", "4242"]
+    seeds = ["0"] if t == "quick" else ["0", "4242"]  # the cross-seed corpus below covers 12 more seeds natively
     funcs = FUNCS
-    timeout_s = 240 if t == "quick" else 1200
+    timeout_s = 240 if t == "quick" else 900
     workdir = ROOT / "work" / "c11"
     workdir.mkdir(parents=True, exist_ok=True)
     rep.functions = [
